@@ -50,8 +50,23 @@ func absID(c string) string {
 
 var epoch = time.Unix(1_700_000_000, 0)
 
-func concTime(t int) time.Time { return epoch.Add(time.Duration(t) * time.Second) }
+// tick 11 is Go's zero time.Time and tick 12 the Unix epoch: both are write times like any other
+func concTime(t int) time.Time {
+	switch t {
+	case 11:
+		return time.Time{}
+	case 12:
+		return time.Unix(0, 0)
+	}
+	return epoch.Add(time.Duration(t) * time.Second)
+}
 func absTime(t time.Time) int {
+	if t.Equal(time.Time{}) {
+		return 11
+	}
+	if t.Equal(time.Unix(0, 0)) {
+		return 12
+	}
 	d := t.Sub(epoch)
 	if d%time.Second != 0 || d < 0 || d > 1000*time.Second {
 		return -7 // not a time the harness clock or a write time ever produced
@@ -192,6 +207,8 @@ type obsLine struct {
 	Idcb  []string   `json:"idcb"`
 	Ccb   int        `json:"ccb"`
 	Panic string     `json:"panic"`
+	// the callee wrote into the spare capacity of the option slice it was handed
+	OptsTouched bool `json:"optsTouched"`
 
 	Subs         []subOpts    `json:"subs"`
 	ClosedBefore []bool       `json:"closedBefore"` // per subscriber: its channel had been closed by the library before the call
@@ -263,6 +280,23 @@ type cbCount struct {
 // optFlip alternates between the two spellings of an option (mask / paths) from one call to the next, so
 // that the convenience wrappers are exercised as much as the options they wrap.
 var optFlip int
+
+// roomy hands the options over in a slice with spare capacity, the way a caller that builds several option
+// lists from one base does; touched tells afterwards whether the callee wrote into that spare room (it then
+// overwrote what a sibling list of the caller shares).
+func roomy(ws []resource.WriteOption) []resource.WriteOption {
+	buf := make([]resource.WriteOption, len(ws), len(ws)+4)
+	copy(buf, ws)
+	return buf
+}
+func touched(buf []resource.WriteOption) bool {
+	for _, o := range buf[len(buf):cap(buf)] {
+		if o != nil {
+			return true
+		}
+	}
+	return false
+}
 
 func writeOptions(o wopts, cb *cbCount) []resource.WriteOption {
 	var ws []resource.WriteOption
@@ -753,15 +787,17 @@ func runCollProgram(p program, out *hx.Out) {
 				case "Update", "Add":
 					var res proto.Message
 					var err error
+					ws := roomy(writeOptions(cl.O, cb))
 					if cl.Op == "Add" {
-						res, err = c.Add(concID[cl.ID], mini.Conc(cl.Msg), writeOptions(cl.O, cb)...)
+						res, err = c.Add(concID[cl.ID], mini.Conc(cl.Msg), ws...)
 					} else {
-						res, err = c.Update(concID[cl.ID], mini.Conc(cl.Msg), writeOptions(cl.O, cb)...)
+						res, err = c.Update(concID[cl.ID], mini.Conc(cl.Msg), ws...)
 					}
-					l.Err, l.Ret = hx.Code(err), absOpt(res)
+					l.Err, l.Ret, l.OptsTouched = hx.Code(err), absOpt(res), touched(ws)
 				case "Delete":
-					res, err := c.Delete(concID[cl.ID], writeOptions(cl.O, nil)...)
-					l.Err, l.Ret = hx.Code(err), absOpt(res)
+					ws := roomy(writeOptions(cl.O, nil))
+					res, err := c.Delete(concID[cl.ID], ws...)
+					l.Err, l.Ret, l.OptsTouched = hx.Code(err), absOpt(res), touched(ws)
 				case "Get":
 					var ro []resource.ReadOption
 					if !cl.Mask.Nil {
@@ -893,7 +929,9 @@ func runValProgram(p program, out *hx.Out) {
 			l.Panic = hx.Catch(func() {
 				switch cl.Op {
 				case "Set":
-					res, err := v.Set(mini.Conc(cl.Msg), writeOptions(cl.O, nil)...)
+					ws := roomy(writeOptions(cl.O, nil))
+					res, err := v.Set(mini.Conc(cl.Msg), ws...)
+					l.OptsTouched = touched(ws)
 					l.Err, l.Ret = hx.Code(err), absOpt(res)
 				case "VGet":
 					var ro []resource.ReadOption
